@@ -7,3 +7,18 @@ Local Open Scope N_scope.
    usize `+` is the plain sum the model writes in that branch *)
 Lemma cadd_lt maxu a : (a <? maxu) = true -> cadd maxu a 1 = Some (a + 1).
 Proof. unfold cadd. intros H. apply N.ltb_lt in H. destruct (N.leb_spec (a + 1) maxu); [reflexivity | lia]. Qed.
+
+(* Skip::source: the `while count > 0 && inner.source().is_some() { count -= 1 }` loop as a function of its own (the model
+   writes it as a local fix inside pull); pull_skip is the unfolding the generated obligations start from *)
+From Signalo Require Import Base.Opt Model.Sources.
+Section SkipLoop.
+Variable p : src -> option (option Z * src).
+Fixpoint skip_loop (c : nat) (i : src) : option src :=
+  match c with
+  | 0%nat => Some i
+  | S c' => '(o, i') <- p i ;; match o with Some _ => skip_loop c' i' | None => Some i' end
+  end.
+End SkipLoop.
+Lemma pull_skip old f i c :
+  pull old (S f) (Skip i c) = (i1 <- skip_loop (pull old f) c i ;; '(o, i2) <- pull old f i1 ;; Some (o, Skip i2 0)).
+Proof. reflexivity. Qed.
